@@ -11,6 +11,8 @@ import (
 	"runtime/debug"
 
 	hwebsocket "github.com/aukilabs/hagall-common/websocket"
+	"github.com/prometheus/client_golang/prometheus"
+	dto "github.com/prometheus/client_model/go"
 )
 
 // VerifConn drives one real `handler` (real scheduler, real handleMessage) without goroutines.
@@ -87,3 +89,18 @@ func VerifSendChanSize() int { return sendChanSize }
 
 // VerifCustomMessageMaxSize exposes the constant for the facts check.
 func VerifCustomMessageMaxSize() int { return customMessageMaxSize }
+
+// VerifConnectedClients returns the sum of the ws_connected_clients gauge over all labels.
+func VerifConnectedClients() float64 {
+	ch := make(chan prometheus.Metric, 1024)
+	wsConnectedClients.Collect(ch)
+	close(ch)
+	var sum float64
+	for m := range ch {
+		var d dto.Metric
+		if err := m.Write(&d); err == nil {
+			sum += d.GetGauge().GetValue()
+		}
+	}
+	return sum
+}
